@@ -17,6 +17,16 @@ fn compare<T: BitRepr>(what: &str, c: &T, small: bool, out: &mut Outcome) -> boo
         let mut cs = CountSink::default();
         c.write(&mut cs).map_err(|e| format!("{e:?}"))?;
         let mut lens = vec![("CountSink", cs.bits)];
+        // a write into a user sink that fails half-way must not change what the next write produces
+        // (the writers keep thread-local scratch buffers)
+        if small && cs.bits <= (1u128 << 22) {
+            let mut probe = crate::oracle::bits::MinimalSink::new();
+            if c.write(&mut probe).is_ok() && probe.ops >= 2 {
+                let mut failing = crate::oracle::bits::MinimalSink::failing_at((counted as usize / 3) % probe.ops);
+                let _ = c.write(&mut failing);
+            }
+            lens.push(("a minimal user sink", probe.model.len() as u128));
+        }
         // materialise only what the counting sink (not count_bits itself) says is small
         if small && cs.bits <= (1u128 << 28) {
             let mut a = MemSink::<u8>::new();
@@ -276,10 +286,126 @@ pub fn check_header(c: &HdrCase) -> Outcome {
     out
 }
 
+/// A frame header written by hand with a chosen (possibly non-canonical) coding of the block size and
+/// of the sample rate, then parsed: `count_bits()` of the parsed header must equal what it writes.
+#[derive(Clone, Debug, Serialize, Deserialize)]
+pub struct NcCase {
+    pub block: usize,
+    /// 0 = the 4-bit table code when one exists (else 8-/16-bit as needed), 1 = force the 8-bit form (block <= 256), 2 = force the 16-bit form
+    pub bs_form: u8,
+    pub rate: usize,
+    /// 0 = "from STREAMINFO" (code 0000), 1 = kHz byte, 2 = Hz 16-bit, 3 = daHz 16-bit, 4 = table code when one exists
+    pub sr_form: u8,
+    pub ch_code: u8,
+    pub ss_code: u8,
+    pub number: u64,
+    pub variable: bool,
+}
+
+fn utf8like(v: u64) -> Vec<u8> {
+    if v < 0x80 {
+        return vec![v as u8];
+    }
+    let bits = 64 - v.leading_zeros() as usize;
+    // n continuation bytes carry 6 bits each; the head byte carries 6 - n bits (0 for n = 6)
+    let n = (1..=6).find(|n| bits <= 6 * n + (6 - n)).unwrap_or(6);
+    let mut out = vec![0u8; n + 1];
+    let mut x = v;
+    for i in (1..=n).rev() {
+        out[i] = 0x80 | (x & 0x3F) as u8;
+        x >>= 6;
+    }
+    let head_mask: u8 = (0xFFu16 << (7 - n)) as u8; // n+1 leading ones
+    out[0] = head_mask | (x as u8);
+    out
+}
+
+pub fn check_noncanonical(c: &NcCase) -> Outcome {
+    let mut out = Outcome::new(fnv(serde_json::to_string(c).unwrap_or_default().as_bytes()));
+    let table_bs: Option<u8> = match c.block {
+        192 => Some(1),
+        576 => Some(2),
+        1152 => Some(3),
+        2304 => Some(4),
+        4608 => Some(5),
+        256 => Some(8),
+        512 => Some(9),
+        1024 => Some(10),
+        2048 => Some(11),
+        4096 => Some(12),
+        8192 => Some(13),
+        16384 => Some(14),
+        32768 => Some(15),
+        _ => None,
+    };
+    let (bs_code, bs_extra): (u8, Vec<u8>) = match (c.bs_form, table_bs) {
+        (0, Some(t)) => (t, vec![]),
+        (1, _) | (0, None) if c.block <= 256 => (6, vec![(c.block - 1) as u8]),
+        _ => (7, ((c.block - 1) as u16).to_be_bytes().to_vec()),
+    };
+    let table_sr: Option<u8> = match c.rate {
+        88200 => Some(1),
+        176400 => Some(2),
+        192000 => Some(3),
+        8000 => Some(4),
+        16000 => Some(5),
+        22050 => Some(6),
+        24000 => Some(7),
+        32000 => Some(8),
+        44100 => Some(9),
+        48000 => Some(10),
+        96000 => Some(11),
+        _ => None,
+    };
+    let (sr_code, sr_extra): (u8, Vec<u8>) = match c.sr_form {
+        1 if c.rate % 1000 == 0 && c.rate / 1000 <= 255 => (12, vec![(c.rate / 1000) as u8]),
+        2 if c.rate <= 65535 => (13, (c.rate as u16).to_be_bytes().to_vec()),
+        3 if c.rate % 10 == 0 && c.rate / 10 <= 65535 => (14, ((c.rate / 10) as u16).to_be_bytes().to_vec()),
+        4 if table_sr.is_some() => (table_sr.unwrap(), vec![]),
+        _ => (0, vec![]),
+    };
+    let canonical = (c.bs_form == 0) && matches!(c.sr_form, 0 | 4);
+    out.class(if canonical { "coding:canonical" } else { "coding:non-canonical" });
+    out.class(format!("bs-code:{bs_code}"));
+    out.class(format!("sr-code:{sr_code}"));
+    let mut b = vec![0xFF, 0xF8 | c.variable as u8, (bs_code << 4) | sr_code, ((c.ch_code % 11) << 4) | ((c.ss_code % 8) << 1)];
+    b.extend(utf8like(c.number));
+    b.extend(bs_extra);
+    b.extend(sr_extra);
+    b.push(crate::oracle::refdec::crc8(&b));
+    let parsed = catch(|| parser::frame_header::<nom::error::Error<&[u8]>>(true)(&b).map(|(rest, h)| (rest.len(), h)).map_err(|e| format!("{e:?}").chars().take(100).collect::<String>()));
+    match parsed {
+        Err(p) => {
+            out.class(format!("skipped:parser-panic(C16):{}", normalise(&p.sig())));
+        }
+        Ok(Err(_)) => out.class("parser-rejects(not judged)"),
+        Ok(Ok((rest, h))) => {
+            out.class("parsed");
+            out.nontrivial = !canonical;
+            if rest == 0 {
+                compare("parsed-header", &h, true, &mut out);
+                // and what it writes is what was read
+                if !out.failed() {
+                    let again = catch(|| {
+                        let mut m = MemSink::<u8>::new();
+                        h.write(&mut m).map(|()| m.into_inner()).map_err(|e| format!("{e:?}"))
+                    });
+                    if let Ok(Ok(w)) = again {
+                        if w.len() * 8 != h.count_bits() {
+                            out.viol("parsed-header:count_bits-differs", format!("count_bits() = {} but {} bytes are written (hand-written header of {} bytes)", h.count_bits(), w.len(), b.len()));
+                        }
+                    }
+                }
+            }
+        }
+    }
+    out
+}
+
 pub fn run(ctx: &Ctx) {
     ctx.rule(
         "every component of generated streams (general inputs, and loud 20/24-bit inputs with Rice parameters limited to 0..2 so that quotient sums reach 2^32) (stream, STREAMINFO, frames before/after precompute_bitstream, headers, subframes, residuals) and of the parsed stream: count_bits() == bits written to MemSink<u8> == MemSink<u64> == a counting sink, frames are whole bytes, parents equal the sum of their children; \
-         directly constructed residuals (partition order 0..=8, parameters 0..=14, quotients up to 2^32-1 with the quotient sum forced to 2^32-1 / 2^32 / 2^32+1 and max*n straddling u32::MAX) compared with an independent u128 count; frame headers over the whole 31-bit frame-number and 36-bit start-sample ranges (boundary-dense); \
+         directly constructed residuals (partition order 0..=8, parameters 0..=14, quotients up to 2^32-1 with the quotient sum forced to 2^32-1 / 2^32 / 2^32+1 and max*n straddling u32::MAX) compared with an independent u128 count; frame headers over the whole 31-bit frame-number and 36-bit start-sample ranges (boundary-dense); hand-written frame headers with every (also non-canonical) coding of block size and sample rate, parsed and re-counted; every small component is first written into a user sink that fails half-way, then counted (scratch buffers must not leak); \
          non-trivial = component containing a residual or a multi-byte coded number",
     );
     let per = ctx.tier.scale(2000, 6);
@@ -305,6 +431,20 @@ pub fn run(ctx: &Ctx) {
         (0usize..=8, prop_oneof![1usize..=8, 1usize..=70, Just(64usize)], 0usize..=4, proptest::collection::vec(0u8..=14, 1..=8), any::<u64>(), 0u8..=5)
             .prop_map(|(partition_order, part_len, warmup, params, seed, mode)| ResCase { partition_order, part_len, warmup, params, seed, mode })
     }, check_residual);
+    ctx.search("parsed-header-codings", 16, per * 4, &|| {
+        let number = prop_oneof![2 => (0u32..=36, -3i64..=3).prop_map(|(b, d)| ((1i128 << b) + d as i128).clamp(0, (1i128 << 36) - 1) as u64), 1 => any::<u64>().prop_map(|x| x & ((1u64 << 36) - 1))];
+        (
+            prop_oneof![3 => proptest::sample::select(vec![192usize, 576, 1152, 2304, 4608, 256, 512, 1024, 2048, 4096, 8192, 16384, 32768]), 2 => 1usize..=256, 2 => 1usize..=65536],
+            0u8..=2,
+            prop_oneof![2 => proptest::sample::select(vec![88200usize, 176400, 192000, 8000, 16000, 22050, 24000, 32000, 44100, 48000, 96000]), 2 => crate::gen::rate_strategy(), 1 => (0usize..=255).prop_map(|k| k * 1000), 1 => 0usize..=655350],
+            0u8..=4,
+            0u8..=10,
+            proptest::sample::select(vec![0u8, 1, 2, 4, 5, 6]),
+            number,
+            any::<bool>(),
+        )
+            .prop_map(|(block, bs_form, rate, sr_form, ch_code, ss_code, number, variable)| NcCase { block, bs_form, rate, sr_form, ch_code, ss_code, number: if variable { number } else { number & ((1u64 << 31) - 1) }, variable })
+    }, check_noncanonical);
     ctx.search("header", 16, per * 10, &|| {
         let number = prop_oneof![
             3 => (0u32..=36, -3i64..=3).prop_map(|(b, d)| ((1i128 << b) + d as i128).clamp(0, (1i128 << 36) - 1) as u64),
@@ -321,6 +461,7 @@ pub fn replay(path: &str) -> Result<Outcome, String> {
     match kind.as_str() {
         "residual" => Ok(check_residual(&serde_json::from_value(case).map_err(|e| e.to_string())?)),
         "header" => Ok(check_header(&serde_json::from_value(case).map_err(|e| e.to_string())?)),
+        "parsed-header-codings" => Ok(check_noncanonical(&serde_json::from_value(case).map_err(|e| e.to_string())?)),
         _ => Ok(check_stream(&serde_json::from_value(case).map_err(|e| e.to_string())?)),
     }
 }
